@@ -78,8 +78,15 @@ def c02(ctx, e):
                               f"wait_for_condition at {path} raised the original exception on the failing run but "
                               f"CallableRuntimeError on replay: {sorted(set(r.split('|')[0] for _, r in comp))}", scen_of(e))
                 continue
-            ctx.violation("observation-diverged", f"{path} delivered different things across invocations: {sorted(set(comp))[:3]}",
-                          scen_of(e))
+            if n.get("k") in ("map", "par"):
+                from checks.executor_common import classify_batch_divergence
+                reps = [r for (_, r) in comp]
+                sig = classify_batch_divergence(reps[0], next(x for x in reps if x != reps[0]))
+                if sig:
+                    ctx.violation(sig, f"{path}: {reps[0][:70]} ... differs on replay", scen_of(e))
+                    continue
+            ctx.violation("observation-diverged", f"{path} delivered different things across invocations: "
+                                                  f"{[(k, r[:80]) for k, r in sorted(set(comp))][:3]}", scen_of(e))
             return
 
 
@@ -107,6 +114,10 @@ def c02_outcome_independent(ctx, execs):
         if len(distinct) > 1:
             items = list(distinct.items())
             nodes = node_index(items[0][1].prog)
+            if any(n.get("k") in ("map", "par") and (n.get("large_item") or n.get("large_items")) for n in nodes.values()):
+                ctx.violation("replay-children-error-type", "final outcome differs with the interruption pattern because an oversized "
+                              "map/parallel result is rebuilt differently on replay", scen_of(items[1][1]))
+                continue
             if any(n.get("k") == "wfc" and n.get("fail_at") for n in nodes.values()):
                 ctx.violation("wfc-original-exception", "final outcome differs with the interruption pattern because a failing "
                               "wait_for_condition raises a different exception class on replay", scen_of(items[1][1]))
@@ -518,3 +529,74 @@ def c17(ctx, e):
                                f"invocation lies ahead of it", scen_of(e))
             if sig == "log-missing":
                 return
+
+
+# ---- C16 ---------------------------------------------------------------------------------------------------
+LIMIT = 256 * 1024
+
+
+def c16(ctx, e):
+    nodes = node_index(e.prog)
+    for path, n in nodes.items():
+        k = n.get("k")
+        if k not in ("child", "map", "par"):
+            continue
+        oid = path_id(path)
+        rec = e.backend.ops.get(oid)
+        if not rec or rec["Status"] != "SUCCEEDED":
+            continue
+        payload = rec.get("_result") or ""
+        rc = bool(rec.get("_replay_children"))
+        if len(payload) > LIMIT:
+            ctx.violation("oversized-payload-recorded", f"{path}: {len(payload)} characters recorded for a context result (limit {LIMIT})",
+                          scen_of(e))
+            return
+        dl = e.rec.delivered.get(path, [])
+        vals = {(kd, r) for (_, kd, r) in dl}
+        if len(vals) > 1:
+            from checks.executor_common import classify_batch_divergence
+            reps = [r for (_, _, r) in dl]
+            sig = (classify_batch_divergence(reps[0], next(x for x in reps if x != reps[0])) if k in ("map", "par") else None) \
+                or "rebuilt-result-differs"
+            ctx.violation(sig, f"{path}: the result rebuilt on replay differs from the original "
+                               f"({[r[:50] for _, r in sorted(vals)][:2]})", scen_of(e))
+            if sig == "rebuilt-result-differs":
+                return
+            continue
+        if rc:
+            # after the summary was recorded nothing new may be recorded under this context, and nothing inside re-executes
+            done_at = next((i for i, u in enumerate(e.backend.stream) if u["id"] == oid and u["action"] == "SUCCEED"), None)
+            ids_under = {path_id(p) for p in nodes if p.startswith(path + "/")}
+            for u in e.backend.stream[(done_at or 0) + 1:]:
+                if u["id"] in ids_under or (u["parent"] in ids_under) or u["parent"] == oid:
+                    ctx.violation("new-record-on-replay", f"{path}: update {u['action']} for {u['name']} recorded after the summary", scen_of(e))
+                    return
+    for r in e.invocations:
+        if r.outcome in ("SUCCEEDED", "FAILED") and isinstance(r.result, dict):
+            big = e.prog.get("final_large") or e.prog.get("final_raise_large")
+            if big:
+                if r.result.get("Result") not in (None, "") or (r.outcome == "FAILED" and r.result.get("Error")):
+                    ctx.violation("large-final-in-response", f"status {r.outcome} reported with a payload for an oversized final outcome", scen_of(e))
+                    return
+                if e.backend.exec_result is None:
+                    ctx.violation("large-final-not-recorded", f"status {r.outcome} with empty payload but no execution-level record", scen_of(e))
+                    return
+    # a map/parallel item whose own result is oversized must still succeed and be recovered
+    for path, n in nodes.items():
+        if n.get("k") in ("map", "par") and (n.get("large_item") or n.get("large_items")):
+            for (inv, kd, r) in e.rec.delivered.get(path, [])[:1]:
+                if "FAILED" in r and "AttributeError" in r or (kd == "error"):
+                    ctx.violation("map-item-summary-generator", f"{path}: an item with an oversized result failed: {r[:160]}", scen_of(e))
+                    return
+                if ",FAILED," in r:
+                    ctx.violation("map-item-summary-generator", f"{path}: an item with an oversized result was reported FAILED: "
+                                                                f"{r[:60]} ... {r[-160:]}", scen_of(e))
+                    return
+
+
+def c01_fn_only(ctx, e):
+    for ev in events(e, "FnEnter"):
+        if ev.get("be") in TERMINAL:
+            ctx.violation("reexecuted-after-terminal", f"user function of {ev['path']} entered although the backend already recorded "
+                                                       f"{ev['be']} (invocation {ev['inv']})", scen_of(e))
+            return
